@@ -168,3 +168,62 @@ def c14(ck):
                 prev = r
         ck.sample({"recorder": name, "events": head_lines(path, 6)})
         trace_validate(ck, "Trace_Lcd", path, cnt, "trace-" + name)
+
+
+# ------------------------------------------------------------------- C16
+@prop("C16")
+def c16(ck):
+    thorough = ck.tier == "thorough"
+    ck.rule = ("recorded OAM DMA histories on an MBC1 machine with random memory: every source page takes its turn, random "
+               "batch partitions (1..300 machine cycles), source edits, OAM writes and restarts at random progress; each "
+               "event validated against Dma.tla (length 160); non-trivial = an adv event that copies at least one byte")
+    mc = tlc("MC_Dma", workers=6, coverage=True, timeout=1800)
+    ck.add_tlc("MC_Dma", mc)
+    ck.require_coverage(mc, ["DoStart", "DoAdvance", "DoModify"])
+    n = 400000 if thorough else 24000
+    path = os.path.join(rundir(), "dma.ndjson")
+    cnt, _ = run_to_file(["dma-trace", "--events", n], path)
+    if cnt == 0:
+        raise ToolError("empty DMA trace")
+    ck.count(cnt)
+    pages = set()
+    prev_off = 0
+    with open(path) as f:
+        for i, line in enumerate(f):
+            r = json.loads(line)
+            if r["ev"] == "start":
+                pages.add(r["arg"])
+            if r["ev"] == "adv" and "src" in r and (r["off"] != prev_off or (r["act"] == 0 and prev_act == 1)):
+                ck.nontrivial_count += 1
+            prev_off, prev_act = r["off"], r["act"]
+            if i == 3:
+                ck.sample({k: (v if k not in ("oam", "src") else v[:8] + ["..."]) for k, v in r.items()})
+    ck.extra["source_pages_covered"] = len(pages)
+    if thorough:
+        # TLC reads the whole file; split to keep memory bounded
+        parts = split_trace(path, 60000)
+    else:
+        parts = [path]
+    for pth in parts:
+        trace_validate(ck, "Trace_Dma", pth, cnt, "trace")
+
+
+def split_trace(path, maxlines):
+    """Split an NDJSON trace at reset records into files of at most ~maxlines lines."""
+    parts, cur, n = [], None, 0
+    idx = 0
+    with open(path) as f:
+        for line in f:
+            if cur is None or (n >= maxlines and '"ev":"reset"' in line):
+                if cur:
+                    cur.close()
+                idx += 1
+                pn = "%s.part%d" % (path, idx)
+                parts.append(pn)
+                cur = open(pn, "w")
+                n = 0
+            cur.write(line)
+            n += 1
+    if cur:
+        cur.close()
+    return parts
